@@ -276,6 +276,21 @@ def _sub_get_unchecked(line):
         else:
             rep = '&%s%s[%s]' % ('mut ' if m.group(3) else '', m.group(2), inner)
         out = out[:m.start()] + rep + out[i:]
+        # a chained call `A.get_unchecked_mut(j).get_unchecked_mut(i)`: the reference just produced is indexed again
+        mc = re.match(r'^(.*)(&mut |&)([A-Za-z_][A-Za-z0-9_\.]*(?:\[[^\[\]]*\])+)\.get_unchecked(_mut)?\(', out)
+        while mc:
+            j = mc.end()
+            depth = 1
+            while j < len(out) and depth:
+                if out[j] == '(':
+                    depth += 1
+                elif out[j] == ')':
+                    depth -= 1
+                j += 1
+            if depth:
+                break
+            out = mc.group(1) + mc.group(2) + mc.group(3) + '[' + out[mc.end():j - 1] + ']' + out[j:]
+            mc = re.match(r'^(.*)(&mut |&)([A-Za-z_][A-Za-z0-9_\.]*(?:\[[^\[\]]*\])+)\.get_unchecked(_mut)?\(', out)
 
 
 def _t_r1(line, arg=None):
@@ -456,11 +471,18 @@ def _t_fsqrt(line, arg=None):
     return re.sub(r'\((\w+) as f64\)\.sqrt\(\) as u64', r'ol_f64_sqrt_u64(\1)', line)
 
 
-TRANSFORMERS = [('Rsqrt', _t_fsqrt), ('Regcd', _t_egcd), ('Rneut', _t_neut), ('Rzn', _t_zn), ('Rtup', _t_rtup), ('Rmul', _t_mulassign), ('Rconst', _t_one_const), ('Rref', _t_rref), ('Rtry', _t_try), ('Rverb', _t_verb), ('Rvec', _t_rvec), ('Rone', _t_one_shl), ('Rdiv', _t_opassign), ('R10', _t_r10), ('Rit', _t_forit), ('Rfor', _t_forname), ('R8', _t_r8), ('Rsort', _t_sort), ('R7', _t_r7), ('R1', _t_r1), ('R1u', _t_unsafe), ('ret', _t_ret), ('brace', _t_brace)]
+def _t_mq(line, arg=None):
+    """Rmq: `s.fbase` -> `ol_mpqs_fbase(s)`, `s.inverters` -> `ol_mpqs_inverters(s)` (fields of mpqs::SieveMPQS, a struct
+    holding locks and atomics that stays opaque to Verus: outlined accessors)"""
+    line = re.sub(r'\bs\.fbase\b', 'ol_mpqs_fbase(s)', line)
+    return re.sub(r'\bs\.inverters\b', 'ol_mpqs_inverters(s)', line)
+
+
+TRANSFORMERS = [('Rmq', _t_mq), ('Rsqrt', _t_fsqrt), ('Regcd', _t_egcd), ('Rneut', _t_neut), ('Rzn', _t_zn), ('Rtup', _t_rtup), ('Rmul', _t_mulassign), ('Rconst', _t_one_const), ('Rref', _t_rref), ('Rtry', _t_try), ('Rverb', _t_verb), ('Rvec', _t_rvec), ('Rone', _t_one_shl), ('Rdiv', _t_opassign), ('R10', _t_r10), ('Rit', _t_forit), ('Rfor', _t_forname), ('R8', _t_r8), ('Rsort', _t_sort), ('R7', _t_r7), ('R1', _t_r1), ('R1u', _t_unsafe), ('ret', _t_ret), ('brace', _t_brace)]
 
 
 # line-local normalisations that need no accompanying ghost text: applied to current lines that have no pinned counterpart
-FREE = ('Rsqrt', 'Regcd', 'R1', 'R1u', 'Rconst', 'Rmul', 'Rdiv', 'Rverb', 'Rtry', 'Rone', 'Rsort', 'R8', 'Rzn', 'Rneut')
+FREE = ('Rmq', 'Rsqrt', 'Regcd', 'R1', 'R1u', 'Rconst', 'Rmul', 'Rdiv', 'Rverb', 'Rtry', 'Rone', 'Rsort', 'R8', 'Rzn', 'Rneut')
 
 
 def free_normalise(line):
@@ -523,6 +545,7 @@ def key(line):
         return '<<brace>>'
     s = re.sub(r'ol_uint_one_shl\(([^()]*)\)', r'Uint::ONE << (\1)', s)
     s = s.replace('ol_verbosity(prefs)', 'prefs.verbosity')
+    s = s.replace('ol_mpqs_fbase(s)', 's.fbase').replace('ol_mpqs_inverters(s)', 's.inverters')
     s = re.sub(r'ol_f64_sqrt_u64\((\w+)\)', r'(\1 as f64).sqrt() as u64', s)
     s = re.sub(r'ol_egcd_(i64|i128)\((\w+) as (i64|i128), (\w+) as (i64|i128)\)', r'Integer::extended_gcd(&(\2 as \3), &(\4 as \5))', s)
     s = s.replace('ol_zn_n(zn)', 'zn.n')
